@@ -53,6 +53,7 @@ func C14(c *Ctx) {
 	c.lateShapeRules("C14-20", "lookup-components")
 	c.iterationErrorRule("C14-21")
 	c.recursionRule("C14-22")
+	c.literalExprRule("C14-23")
 	c.positive("C14-13", "deferred-overwrite", func(pc *Ctx) { pc.deferredResultRule("C14-13") }, []string{"runner.Run$1", "writes:err"}, nil)
 	c.positive("C14-12", "unbounded-index", func(pc *Ctx) { pc.varIndexRule("C14-12") }, []string{"runner.At"}, nil)
 	c.c14Errors()
